@@ -8,6 +8,8 @@ def doc_nested(n):
 # exponential backtracking: a function argument that fails to parse is re-tried through three grammar routes at every level
 for n in [6, 12, 24]:
     print(json.dumps({'mode': 'parse', 'shape': 'fn-nesting-failing-argument', 'depth': n, 'q': '$[?' + 'f(' * n + '1==1' + ')' * n + ']'}))
+    # the same doubling for a VALID query: a function call in test position is parsed under comp_expr and again under test_expr
+    print(json.dumps({'mode': 'parse', 'shape': 'fn-nesting-through-filters', 'depth': n, 'q': '$[?' + 'f(@[?' * n + '@' + '])' * n + ']'}))
 for n in depths:
     shapes = {
         'parens': ('parse', '$[?' + '(' * n + '@.a' + ')' * n + ']', None),
